@@ -1740,6 +1740,7 @@ func (l *lexer) emit(typ int) {
 	select {
 	case <-l.cancel:
 		// an error is already recorded: do not hand over another token
+		verifPoint(l, "L.bail", 0)
 		panic(bailout)
 	default:
 	}
